@@ -853,6 +853,9 @@ func (c *CreateIndexStatement) SQL() string {
 		if col.Direction != "" {
 			s += " " + col.Direction
 		}
+		if col.NullsLast {
+			s += " NULLS LAST"
+		}
 		cols[i] = s
 	}
 	sb.WriteString(strings.Join(cols, ", "))
@@ -1297,8 +1300,15 @@ func joinSQL(j *JoinClause) string {
 	sb.WriteString(" JOIN ")
 	sb.WriteString(tableRefSQL(&j.Right))
 	if j.Condition != nil {
-		sb.WriteString(" ON ")
-		sb.WriteString(exprSQL(j.Condition))
+		if cols, ok := j.Condition.(*ListExpression); ok {
+			// a multi-column USING list is stored as a ListExpression
+			sb.WriteString(" USING (")
+			sb.WriteString(exprSQL(cols))
+			sb.WriteString(")")
+		} else {
+			sb.WriteString(" ON ")
+			sb.WriteString(exprSQL(j.Condition))
+		}
 	}
 	return sb.String()
 }
